@@ -288,6 +288,16 @@ func (c *Ctx) requestSites() ([]*reqSite, []string) {
 						s.AckT = "pktPingResp"
 					}
 				}
+			default:
+				// a packet type of its own for PINGREQ: its Pack emits the PINGREQ header constant
+				if pt != "" && pingReq != nil {
+					if k, ok := c.packHeaderConst(pt); ok {
+						if pv, _ := constantInt64(pingReq); pv == k {
+							s.Kind = "ping"
+							s.AckT = "pktPingResp"
+						}
+					}
+				}
 			}
 			if s.Kind == "" {
 				continue // acknowledgements written by serve, DISCONNECT
@@ -746,4 +756,41 @@ func signallerBase(fa *ssa.FieldAddr) (ssa.Value, bool) {
 		cur = outer
 	}
 	return nil, false
+}
+
+// packHeaderConst: the constant first byte of the packets T.Pack emits: the first operand of its pack() call, or the first
+// element of the byte-slice literal it returns.
+func (c *Ctx) packHeaderConst(t string) (int64, bool) {
+	f := c.Method(t, "Pack")
+	if f == nil || f.Blocks == nil {
+		return 0, false
+	}
+	pack := c.Func("pack")
+	var out int64
+	found := false
+	eachInstr(f, func(in ssa.Instruction) {
+		if k, ok := in.(*ssa.Call); ok && pack != nil && c.StaticCalleeOf(&k.Call) == pack {
+			if v, ok := c.packTypeByte(k); ok {
+				out, found = v, true
+			}
+		}
+	})
+	if found {
+		return out, true
+	}
+	for _, ret := range returnsOf(f) {
+		if len(ret.Results) != 1 {
+			continue
+		}
+		if sl, ok := c.Resolve(ret.Results[0]).(*ssa.Slice); ok {
+			if al, ok := sl.X.(*ssa.Alloc); ok {
+				if es := arrayElems(al); len(es) > 0 && es[0] != nil {
+					if v, ok := c.constByte(es[0]); ok {
+						return v, true
+					}
+				}
+			}
+		}
+	}
+	return 0, false
 }
